@@ -296,7 +296,10 @@ Stmts(p, H, ZS) ==
 Compat(c, p) == Constructs[c].ty = Positions[p].ty /\ Constructs[c].min >= Positions[p].need
 Pairs == {cp \in (1..NC) \X (1..NP) : Compat(cp[1], cp[2])}
 \* tier "q": a seeded third of the table
-Taken(cp) == Tier = "t" \/ (cp[1] * 7 + cp[2] * 5 + Seed) % 3 = 0
+\* tier "n" (negative control): the list-valued constructs in header positions only
+Taken(cp) == \/ Tier = "t"
+             \/ Tier = "q" /\ (cp[1] * 7 + cp[2] * 5 + Seed) % 3 = 0
+             \/ Tier = "n" /\ Positions[cp[2]].hb /\ Constructs[cp[1]].ty = "l"
 Index == {cp \in Pairs : Taken(cp)}
 
 \* ------------------------------------------------------------------ one program
@@ -351,10 +354,10 @@ Variants(cp, toks) ==
   IF Tier = "t"
   THEN <<V("std", "none", "prog", toks, h), V("wide", "none", "prog", toks, h), V("one", "none", "prog", toks, h), V("spacey", "none", "prog", toks, h),
          V("std", "lc", "prog", toks, h), V("std", "bc", "prog", toks, h), V("std", "ol", "prog", toks, h), V("std", "ob", "prog", toks, h),
-         V("std", "mix", "prog", toks, h), V("wide", "lc", "prog", toks, h), V("wide", "mix", "prog", toks, h), V("one", "bc", "prog", toks, h),
+         V("std", "mix", "prog", toks, h), V("wide", "mix", "prog", toks, h), V("one", "bc", "prog", toks, h + 1),
          V("spacey", "mix", "prog", toks, h),
-         V("std", "lc1", "prog", toks, h), V("std", "bc1", "prog", toks, h + 1), V("std", "ol1", "prog", toks, h + 2), V("wide", "ob1", "prog", toks, h + 3),
-         V("std", "none", "frag", toks, h), V("std", "mix", "frag", toks, h), V("wide", "lc", "frag", toks, h)>>
+         V("std", "lc1", "prog", toks, h), V("wide", "bc1", "prog", toks, h + 1),
+         V("std", "none", "frag", toks, h), V("std", "mix", "frag", toks, h)>>
   ELSE <<V("std", QModes1[(h % 4) + 1], IF h % 5 = 0 THEN "frag" ELSE "prog", toks, h),
          V(QLays[(h % 3) + 1], QModes2[((h \div 3) % 6) + 1], IF h % 5 = 1 THEN "frag" ELSE "prog", toks, h)>>
 
